@@ -26,7 +26,7 @@ CHECKS = {
     text="Codec_Lh1.tla carries the LZHUF reference algorithm (StartHuff, update with node exchange, reconst at MAX_FREQ, the fixed "
          "position code); lhasa's -lh1- decoder, which maintains frequency groups instead, is run on streams from an independent LZHUF "
          "encoder: skewed, tie-heavy and uniform symbol distributions, all copy lengths 3..60, distances 0/63/64/4095, streams of more "
-         "than 32768 symbols so that the tree is rebuilt repeatedly, and a ramp distribution that drives the number of distinct node "
+         "than 32768 symbols so that the tree is rebuilt repeatedly, Fibonacci-weighted counts that produce the longest codes the scheme can have (18 bits), and a ramp distribution that drives the number of distinct node "
          "frequencies (lhasa's frequency groups) beyond 314 of the 627 possible. TLC replays every stream through the reference and requires "
          "every decoded command (chunk) of the C decoder to equal the reference's and the LZ77 expansion of the commands - any "
          "divergence of the adaptive tree shows as a wrong symbol. Grounded on the corpus' -lh1- members. Codec_Lh1Groups.tla transcribes "
@@ -63,7 +63,8 @@ CHECKS = {
          "(re)definition schedule 1K/2K/4K/8K/+4K counted per output byte also in the middle of copies with the optional-rebuild bit, "
          "pm1 start-header trees, position-dependent copy ranges, byte blocks, and continuation on implicit zero bits. An independent "
          "encoder drives every structural case (each history and copy class at its edges, each pm2 schedule state entered by a "
-         "literal / end of copy / mid-copy, all 32 pm1 trees, every pm1 threshold +-1, early stream end); the real decoder's chunks "
+         "literal / end of copy / mid-copy, all 32 pm1 trees, every pm1 threshold +-1, early stream end - every pm1 stream also with the zero bytes at its end dropped, which cuts "
+         "inside the last literal's code at every bit position); the real decoder's chunks "
          "must equal the definition's and the expansion of the commands. Grounded on the corpus' PMarc members (CRC recorded by PMarc).",
     design_ref="DESIGN.md section 5, C04",
     note="No public PMarc specification is available; definition and encoder were derived independently from the source and agree with "
@@ -225,8 +226,9 @@ CHECKS = {
     category="model_checking",
     text="TLC checks on all strings over {'.','/','a'} up to length 8 (thorough 10) that the in-place state machine of collapse_path "
          "(transcribed) equals the declarative normal form, that the result is clean, not longer, and idempotent. On the "
-         "implementation, all strings over {'.','/','\\',0xFF,NUL,'a'} up to length 5 (thorough 7) are put through ten carriers "
-         "(level-0/1 in-header names, file-name and path extended headers, directory entries, level 3, symlinks in both spellings) "
+         "implementation, all strings over {'.','/','\\',0xFF,NUL,'a'} up to length 5 (thorough 7) are put through thirteen carriers "
+         "(level-0/1 in-header names, file-name and path extended headers, directory entries with and without a file name header, level 3, "
+         "symlinks in both spellings) "
          "for case-folding and non-folding OS types, plus random longer strings, plus all pairs of strings of up to 2 (thorough 3) "
          "characters over {'.','/','\\','a'} in seven two-string carriers (in-header name next to a path and / or file name header, "
          "both orders, doubled path headers); TLC evaluates Clean(path, filename) on every returned header.",
@@ -238,7 +240,8 @@ CHECKS = {
  "C12": dict(
     category="model_checking",
     text="For 16 (thorough 120) well-formed base headers covering all levels and chain shapes: all 255 substitutions at every byte "
-         "position of the header, every truncation point, and perturbations of every length field; plus sparse mutations of "
+         "position of the header, every truncation point, and perturbations of every length field (level 3: the 32-bit size fields at 2^32 - k, "
+         "where 32-bit sums wrap back into the header, at the sign bit and around the 1 MiB cap); plus sparse mutations of "
          "hundreds of random headers. For each mutated input TLC evaluates the integrity rule (Header.tla's Parse, incl. byte "
          "checksum and CRC-16 computed in TLA+) on the logged bytes and requires: rule fails => no header returned and the next "
          "request returns none either. The identity cross product (OS type x method x length x name header x path header x kind of "
@@ -255,7 +258,7 @@ CHECKS = {
          "member's length. On the implementation: all bursts of width <= 16 at every bit offset of stored members of 1..4 "
          "(thorough: up to 24) bytes are applied and lha_reader_check must say bad (about 10^6 cases, exhaustive). For generated "
          "archives in every method (intact; recorded CRC/length perturbed; data bit flips; truncation; declared length 0 and "
-         "2^32-1; unsupported method; multi-member mixes) three passes through the real reader are recorded - read (all bytes "
+         "2^32-1; unsupported method; multi-member mixes; stored members with more bytes than they declare) three passes through the real reader are recorded - read (all bytes "
          "logged), check, extract - plus `lha t` and `lha x`; the trace spec computes length and CRC-16 of the produced bytes "
          "with its own Crc16 and requires every verdict (library return values, Tested/Melted lines, exit status) to be "
          "exactly supported /\\ length = recorded /\\ CRC = recorded. The complete stdout of `lha t | x | e` (progress bar "
@@ -282,7 +285,8 @@ CHECKS = {
          "deterministic step budget; every call's result is validated against Reader.tla and the trace spec evaluates on every "
          "call: callback calls <= 2*len+64*ops+256, bytes requested <= 3*len+out+(1MiB+8K)*ops+64K, peak heap <= 8 MiB+2*len. Sources that "
          "fail for good after k callbacks (read: -1, skip: 0) must still let every call return. Archives of 10^5 tiny members are walked to the "
-         "end with the heap under the same bound (nothing may be kept per member passed). The tool: the overwrite prompt with "
+         "end with the heap under the same bound (nothing may be kept per member passed). Sources that break at a byte offset (the read crossing "
+         "it comes back short, everything after fails) and sources that hand over 1, 5 or 24 bytes at a time must let every call return. The tool: the overwrite prompt with "
          "every sequence of up to two answers and with input that stops at or inside an answer, run under CPU and output limits "
          "(TreeModel!Ask: end of input at the prompt ends the tool).",
     design_ref="DESIGN.md section 5, C13",
@@ -328,7 +332,9 @@ CHECKS = {
          "two threads, and on two threads under ThreadSanitizer (a data race is an event no action of the model matches); each "
          "reader's trace is validated on its own. Deterministic families: dangerous links of different and equal path lengths in every order "
          "of arrival, directories and deferred links pending at once when the input ends, the directory policy switched in the middle "
-         "of the archive (and the archive abandoned right there), directory entries that record no metadata.",
+         "of the archive (and the archive abandoned right there), directory entries that record no metadata, nested directory walks (an inner "
+         "directory left and the outer one re-entered at a longer, shorter, similar or deeper path, with every choice of which directories are "
+         "extracted, under each policy). The projection's directory policy, inner-decoder flag and the stream kind the driver reports are compared too.",
     design_ref="DESIGN.md section 5, C15",
     note="Trusted: TLC/SANY/CommunityModules, clang+ASan, the generator's ground truth (archive layout and member contents). "
          "Concurrency (two readers on two threads) is observed (per-reader traces, ThreadSanitizer as event source), not explored.",
